@@ -5,6 +5,7 @@ package c17
 
 import (
 	"bytes"
+	"crypto/sha256"
 	"encoding/json"
 	"fmt"
 	"sort"
@@ -377,6 +378,18 @@ type thresholdCase struct {
 
 func fillZero(n int) []byte { return make([]byte, n) }
 
+// fillHashChain: bytes of a SHA-256 chain - what hashes, signatures and already
+// compressed data look like on the wire: no repetition an LZ4 encoder could use.
+func fillHashChain(n int) []byte {
+	b := make([]byte, 0, n+32)
+	h := sha256.Sum256([]byte("c17"))
+	for len(b) < n {
+		b = append(b, h[:]...)
+		h = sha256.Sum256(h[:])
+	}
+	return b[:n]
+}
+
 // fillNoise: incompressible bytes from a fixed linear congruential generator.
 func fillNoise(n int) []byte {
 	b := make([]byte, n)
@@ -449,7 +462,11 @@ func evalThreshold(tc thresholdCase, n int, fillName string, fill func(int) []by
 	// find the padding that makes the payload encoding exactly n bytes long
 	var p payload.Payload
 	var pb []byte
-	for pad := 0; pad <= n; pad++ {
+	start := 0
+	if n > 4*network.CompressionMinSize {
+		start = n - 400 // bulk sizes: the fixed part of every payload kind is far below 400 bytes
+	}
+	for pad := start; pad <= n; pad++ {
 		var q payload.Payload
 		if pn := guard(func() { q = tc.mk(pad, fill) }); pn != "" || q == nil {
 			continue
@@ -582,9 +599,18 @@ func pathPhase2(r *vk.Run, th bool) (evals, nontrivial int, info map[string]any)
 			sizes = append(sizes, n)
 		}
 	}
+	// bulk sizes far above the threshold: what an encoder does with incompressible
+	// payloads depends on their size (output larger than the input by size/255)
+	bulk := []int{4096, 16384, 60000}
+	if th {
+		bulk = []int{2048, 4096, 8192, 16384, 32768, 60000, 65000}
+	}
 	for _, tc := range thresholdCases() {
 		for _, n := range sizes {
-			tjs = append(tjs, tj{tc, n, "zeros", fillZero}, tj{tc, n, "noise", fillNoise})
+			tjs = append(tjs, tj{tc, n, "zeros", fillZero}, tj{tc, n, "noise", fillNoise}, tj{tc, n, "hashes", fillHashChain})
+		}
+		for _, n := range bulk {
+			tjs = append(tjs, tj{tc, n, "zeros", fillZero}, tj{tc, n, "noise", fillNoise}, tj{tc, n, "hashes", fillHashChain})
 		}
 	}
 	thOutcomes := map[string]int{}
